@@ -178,7 +178,9 @@ func runAnts(toks []string) string {
 		}
 	}
 	for _, sp := range specs {
-		for a := 0; a < sp.retry || a < len(sp.behs); a++ {
+		// a retry count beyond 64 means "retry until success": the scripted behaviours end in a success, so the
+		// horizon only needs to cover them
+		for a := 0; (a < sp.retry && a < 64) || a < len(sp.behs); a++ {
 			b := sp.behs[len(sp.behs)-1]
 			if a < len(sp.behs) {
 				b = sp.behs[a]
